@@ -494,3 +494,38 @@ def SENS(K=0, horizon=5, interval=1, cap=2, n=1, ocap=None, callbacks=2, cms_twi
         ops = [('bump', 'o1'), ('fail', 'M1', 0), ('wo', 'M1', 'x'), ('restore', 'M1')]
     nm = f'SENS[i{interval},c{cap},n{n},oc{ocap},cb{callbacks}{",2nd" + str(second) if second else ""},K{K}]'
     return spec(nm, devs, horizon, ops, K)
+
+
+# ---------------------------------------------------------------------------- C20: assets created while running
+
+LATE_DEVICES = [
+    src('S2', 1),                                   # 0  a whole new line: source ...
+    hand('H2', ['S2'], 0.5),                        # 1  ... handler ...
+    sink('K2', ['H2']),                             # 2  ... sink
+    proc('M2', ['S'], 1, wo={'x': [1, 1, 0]}),      # 3  a second machine behind the existing source ...
+    sink('K3', ['M2']),                             # 4  ... with its own sink
+    maint(1, name='mt2', value=5),                  # 5
+    sched('A2', [(1, 'a'), (0.5, 'b')], True, [('o1', 'default')]),   # 6
+    psensor('P2', 1, [('o1', 'n')], 2, 1),          # 7
+    osensor('O2', 'M1', ['quality'], 1, None, 1),   # 8
+    cms('C2', ['P']),                               # 9
+    buf('B2', ['S'], 2, 0),                         # 10
+    sink('K4', ['B2'], 1),                          # 11
+    batcher('PB2', ['S'], 2),                       # 12
+    gate('G2', ['PB2'], 'all'),                     # 13
+    sink('K5', ['G2']),                             # 14
+]
+
+
+def LATE(K=1, horizon=5, ops=None, creates=None, name=''):
+    '''Every kind of asset created from inside an event (and between runs when the run is split) in a running line.'''
+    wo = {'x': [1, 1, 2]}
+    devs = [src('S', 1), proc('M1', ['S'], 2, wo=wo), sink('K', ['M1']), maint(1), obj('o1'),
+            psensor('P', 1, [('o1', 'n')], 2, 1), cms('C', ['P'])]
+    if creates is None:
+        creates = [[0, 1, 2], [3, 4], [5], [6], [7], [8], [9], [10, 11], [12, 13, 14]]
+    if ops is None:
+        ops = [['create'] + c for c in creates]
+    s = spec(f'LATE{name}[K{K}]', devs, horizon, ops, K)
+    s['late'] = LATE_DEVICES
+    return s
